@@ -285,17 +285,23 @@ pub fn c16_check(ctx: &WorkerCtx, out: &mut WorkerOut) {
         for victim in 0..VICTIMS.len() as u8 {
             for k in 0..=12u8 {
                 for sat in 0..4u8 {
-                    for (sb, pre_ticks) in [(false, 0u8), (true, 0), (false, 1), (true, 1), (false, 2)] {
+                    // the size of the saturating burst decides whether the mailbox is still full
+                    // when the victim is polled (an actor drains up to 16 requests per turn): 17
+                    // fills it once, 40 and 72 keep it full over one and three turns
+                    for (sb, pre_ticks, sat_n) in [(false, 0u8, 17u8), (true, 0, 27), (false, 1, 17), (false, 1, 40), (true, 1, 40), (false, 2, 40), (false, 2, 72), (false, 3, 72)] {
+                        if sat == 0 && sat_n != 17 && sat_n != 27 {
+                            continue; // no saturation: the burst size does not matter
+                        }
                         g += 1;
                         if g % ctx.nworkers != ctx.widx {
                             continue;
                         }
-                        let c = C16Case { sched_seed: seed ^ ctx.seed.rotate_left(7), extra_prefix: vec![], sat, sat_n: 17 + (k % 3) * 10, victim, k, settle_between: sb, pre_ticks };
+                        let c = C16Case { sched_seed: seed ^ ctx.seed.rotate_left(7), extra_prefix: vec![], sat, sat_n, victim, k, settle_between: sb, pre_ticks };
                         let _ = std::fs::write(&ctx.inflight, serde_json::to_vec(&json!({"engine":"c16","case":c})).unwrap_or_default());
                         evals += 1;
                         let (v, inside, tj) = check(&c);
                         if inside {
-                            out.fingerprints.push(fingerprint(&(victim, k, sat, sb, pre_ticks)));
+                            out.fingerprints.push(fingerprint(&(victim, k, sat, sb, pre_ticks, sat_n)));
                             out.class(&format!("dropped_inside_handler/{}", VICTIMS[victim as usize]));
                             if out.samples.len() < 2 {
                                 out.samples.push(serde_json::to_value(&c).unwrap());
@@ -317,7 +323,7 @@ pub fn c16_check(ctx: &WorkerCtx, out: &mut WorkerOut) {
     }
     out.evaluations += evals;
     out.exhaustive = Some(true);
-    out.notes.push(format!("enumerated {} victim kinds x polls 0..=12 x 4 saturation modes x 5 pacing modes (tick/settle between polls, 0-2 ticks between the bursts and the first poll) x {} scheduler seed(s) (sharded); each case = 3 simulations (abandoned, completed, never sent)", VICTIMS.len(), seeds));
+    out.notes.push(format!("enumerated {} victim kinds x polls 0..=12 x 4 saturation modes x 8 pacing modes (tick/settle between polls, 0-3 ticks between the bursts and the first poll, bursts of 17/27/40/72 requests) x {} scheduler seed(s) (sharded); each case = 3 simulations (abandoned, completed, never sent)", VICTIMS.len(), seeds));
     // (2) random prefixes
     let cases = ctx.share(match ctx.tier {
         Tier::Quick => 1_500,
